@@ -470,11 +470,11 @@ pub fn render_glue(p: &Program, o: &RenderOpts) -> String {
         let assoc_conc: Vec<String> =
             if h.part == 0 { vec![] } else { conc_names(&p.interfaces[h.part - 1].assoc) };
         let params_conc = conc_names(&p.contract.generics);
-        writeln!(s, "        b.builder(\"{}\", |a| {{", h.id).unwrap();
+        writeln!(s, "        b.builder(\"{}\", |vp_args_| {{", h.id).unwrap();
         for (n, a) in h.args.iter().enumerate() {
             writeln!(
                 s,
-                "            let {}: {} = svrt::arg(a, {n})?;",
+                "            let {}: {} = svrt::arg(vp_args_, {n})?;",
                 a.name,
                 a.ty.rust(&params_conc, &assoc_conc)
             )
